@@ -621,4 +621,124 @@ theorem addMany_abs {t : Table} (h : Inv t) (batch : List Entry) :
     refine ⟨?_, rfl, k1⟩
     simp only [abs, a1, hek]
 
+/-! ### check_out, get_one and the whole step -/
+
+theorem checkOut_abs {t : Table} (h : Inv t) (st : Status) (lv : Option Nat) :
+    abs (checkOut t st lv).1 = (sCheckOut (abs t) st lv).1
+      ∧ (checkOut t st lv).2 = (sCheckOut (abs t) st lv).2 ∧ Inv (checkOut t st lv).1 := by
+  unfold checkOut sCheckOut
+  cases hc : checkOutRows (wanted st lv) t.rows with
+  | none =>
+    have hn := checkOutRows_none (ss := t.strings) hc
+    simp only [abs]
+    rw [hn]
+    exact ⟨rfl, rfl, h⟩
+  | some x =>
+    obtain ⟨r', rows'⟩ := x
+    obtain ⟨r, f0, e0, m0, k0⟩ := checkOutRows_some (KInv.urls_distinct h) hc
+    simp only [abs]
+    rw [f0]
+    refine ⟨?_, ?_, inv_of_keys (t := t) rfl k0 h⟩
+    · simp only [m0]
+    · simp only [e0]
+
+theorem find?_congr' {α : Type} {p q : α → Bool} {l : List α} (h : ∀ x ∈ l, p x = q x) :
+    l.find? p = l.find? q := by
+  induction l with
+  | nil => rfl
+  | cons a t ih =>
+    simp only [List.find?_cons, h a (List.mem_cons_self ..)]
+    rw [ih (fun x hx => h x (List.mem_cons_of_mem _ hx))]
+
+theorem getOne_find {t : Table} (h : Inv t) (u : Str) :
+    (t.rows.find? (fun r => strOf t.strings r.urlId == some u)).map (res t.strings)
+      = (abs t).rows.find? (fun r => r.url == u) := by
+  simp only [abs, List.find?_map]
+  congr 1
+  apply find?_congr'
+  intro r hr
+  have := res_url (KInv.rowOk h hr)
+  simp only [strOf, this, Function.comp]
+  rw [Bool.eq_iff_iff]
+  simp
+
+/-- REFINEMENT, one call: the concrete table and the reference make the same step -/
+theorem step_refines (disk : Bool) {t : Table} (h : Inv t) (op : Op) :
+    abs (step disk t op).1 = (sstep disk (abs t) op).1
+      ∧ (step disk t op).2 = (sstep disk (abs t) op).2 ∧ Inv (step disk t op).1 := by
+  unfold step sstep
+  cases hb : bindErr op with
+  | some e => exact ⟨rfl, rfl, h⟩
+  | none =>
+    simp only
+    cases op with
+    | addMany b => exact addMany_abs h b
+    | checkOut st lv => exact checkOut_abs h st lv
+    | checkIn u st inc r => exact ⟨updateWhere_abs h u _, rfl, updateWhere_inv h u _⟩
+    | updateOne u kw => exact ⟨updateWhere_abs h u _, rfl, updateWhere_inv h u _⟩
+    | release =>
+      refine ⟨?_, rfl, ?_⟩
+      · simp only [abs, release_abs]
+      · refine inv_of_keys (t := t) rfl ?_ h
+        exact map_keys (fun r => rfl)
+    | removeMany us =>
+      obtain ⟨a, k⟩ := removeMany_abs us t.rows h
+      refine ⟨?_, rfl, k⟩
+      simp only [abs, a]
+    | addVisits vs => exact ⟨rfl, rfl, h⟩
+    | getRevisitId u d => exact ⟨rfl, rfl, h⟩
+    | count => exact ⟨rfl, by simp [abs], h⟩
+    | getAll => exact ⟨rfl, rfl, h⟩
+    | getOne u =>
+      have hf := getOne_find h u
+      dsimp only
+      cases hc : t.rows.find? (fun r => strOf t.strings r.urlId == some u) with
+      | none => rw [hc] at hf; simp only [Option.map_none] at hf; rw [← hf]; exact ⟨rfl, rfl, h⟩
+      | some r => rw [hc] at hf; simp only [Option.map_some] at hf; rw [← hf]; exact ⟨rfl, rfl, h⟩
+    | contains u =>
+      have hf := getOne_find h u
+      refine ⟨rfl, ?_, h⟩
+      dsimp only
+      rw [← hf]
+      simp
+    | getHostnames => exact ⟨rfl, rfl, h⟩
+    | reopen =>
+      cases disk with
+      | true => exact ⟨rfl, rfl, h⟩
+      | false => exact ⟨rfl, rfl, inv_empty⟩
+
+/-- the tables a history can produce -/
+def Reachable (disk : Bool) (t : Table) : Prop := ∃ ops, t = (run disk Table.empty ops).1
+
+theorem run_refines (disk : Bool) (ops : List Op) : ∀ {t : Table}, Inv t →
+    abs (run disk t ops).1 = (srun disk (abs t) ops).1
+      ∧ (run disk t ops).2 = (srun disk (abs t) ops).2 ∧ Inv (run disk t ops).1 := by
+  induction ops with
+  | nil => intro t h; exact ⟨rfl, rfl, h⟩
+  | cons op rest ih =>
+    intro t h
+    obtain ⟨a, o, k⟩ := step_refines disk h op
+    obtain ⟨a2, o2, k2⟩ := ih k
+    simp only [run, srun]
+    rw [← a, ← o]
+    exact ⟨a2, by rw [o2], k2⟩
+
+theorem abs_empty : abs Table.empty = Spec.empty := rfl
+
+theorem Reachable.inv {disk : Bool} {t : Table} (h : Reachable disk t) : Inv t := by
+  obtain ⟨ops, rfl⟩ := h
+  exact (run_refines disk ops inv_empty).2.2
+
+theorem Reachable.next {disk : Bool} {t : Table} (h : Reachable disk t) (op : Op) :
+    Reachable disk (step disk t op).1 := by
+  obtain ⟨ops, rfl⟩ := h
+  refine ⟨ops ++ [op], ?_⟩
+  have key : ∀ (ops : List Op) (t : Table),
+      (run disk t (ops ++ [op])).1 = (step disk (run disk t ops).1 op).1 := by
+    intro ops
+    induction ops with
+    | nil => intro t; simp [run]
+    | cons a rest ih => intro t; simp only [List.cons_append, run]; exact ih _
+  exact (key ops _).symm
+
 end Wpull.Table
